@@ -345,6 +345,25 @@ func clearPre(ops []Op) []Op {
 	return out
 }
 
+// staticValueDeclaredAgain: the calls set a static value on a field of a node, a Compile fails, and the
+// same field of the same node is given a static value again.
+func staticValueDeclaredAgain(ops []Op, failed []int) bool {
+	for _, j := range failed {
+		before := map[string]bool{}
+		for _, o := range ops[:j] {
+			if o.K == "WN" && o.SV != "" {
+				before[o.Key+"."+o.SV] = true
+			}
+		}
+		for _, o := range ops[j:] {
+			if o.K == "WN" && o.SV != "" && before[o.Key+"."+o.SV] {
+				return true
+			}
+		}
+	}
+	return false
+}
+
 // compileStageRule: the reference attributes the failure of a Compile to the compile stage proper (an
 // incomplete graph, a bad option set, a loop, an ill-formed nested graph) and not to a declaration that
 // was replayed and refused (a Workflow replays its declarations at Compile; such a refusal sticks).
@@ -454,7 +473,12 @@ func (c *checker) checkCompileHistory(s *Seq, ops []Op, first *attempt, preds []
 			}
 			w := witness{Seq: s, Position: i - np, Call: ops[i].String(), Note: v.what + ": " + opsText(v.calls)}
 			if altCls != first.vec[i] {
-				c.rep.Violation("C20/compile-not-repeatable/"+s.FE+"/"+v.class+"/compile-outcome",
+				feature := ""
+				if v.class == "after-failed-compile" && staticValueDeclaredAgain(orig, failed) {
+					// (what the sequence contains, not a proven cause)
+					feature = "/static-value-declared-again"
+				}
+				c.rep.Violation("C20/compile-not-repeatable/"+s.FE+"/"+v.class+"/compile-outcome"+feature,
 					fmt.Sprintf("the outcome of Compile depends on an earlier Compile of the same objects: %s here, %s for %s\n%s\nalternative: %s",
 						classText(first.vec[i]), classText(altCls), v.what, text(i), opsText(v.calls)), w)
 				continue
